@@ -419,3 +419,20 @@ def _eeof():
     return (f"/-- {header(path, qual, src, fn)}: number of samples of the delay-embedded matrix and the shift of copy `i` -/\n"
             "def eeofSamplesKept (n embedding tau : Nat) : Nat := n - (embedding - 1) * tau\n"
             "def eeofShift (i tau : Nat) : Nat := i * tau\n")
+
+
+# ------------------------------------------------------------------------------------------------- latitude weights
+@target("coslatFormula", "Formulas", ["C08", "C02", "C03"])
+def _coslat():
+    path, qual = "utils/xarray_utils.py", "_np_sqrt_cos_lat_weights"
+    src, tree = load(path)
+    fn = find_func(tree, qual)
+    rets = [ast.unparse(n.value) for n in ast.walk(fn) if isinstance(n, ast.Return)]
+    body = [s for s in fn.body if not (isinstance(s, ast.Expr) and isinstance(s.value, ast.Constant))]
+    if rets != ["np.sqrt(np.cos(np.deg2rad(data)).clip(0, 1))"] or len(body) != 1:
+        raise TranslationError("latitude weight is not sqrt(clip(cos(deg2rad(lat)), 0, 1)): " + str(rets))
+    return (f"/-- {header(path, qual, src, fn)}: `{rets[0]}` as a function of `c = cos(lat)` -/\n"
+            "def coslatWeightOfCos {R : Type} [Num R] (cosLat clipped : R) : R := Num.sqrt clipped\n"
+            "/-- the clip bounds applied to cos(lat) before the square root -/\n"
+            "def coslatClipBounds : Int × Int := (0, 1)\n"
+            "def coslatWeightIsSqrtOfClippedCos : Bool := true\n")
